@@ -89,6 +89,8 @@ def _run(spec, w):
                 desc["vals_uid"] = [w.intern.uid(x) for x in H.dvs(st["vals"])]
             if op == "stack" and w.kinds()[st["b"]] == "v" and len(w.slots[st["b"]]) != len(w.slots[st["a"]]):
                 desc["unmodelled"] = True      # nested non-Table result (boundary)
+            if op == "stackvt":
+                desc["unmodelled"] = True      # cells judged by C01 (derive); here only: no crash, every table stays rectangular
             src_is_table = w.kinds()[st.get("src", st.get("a", 0))] == "t" if isinstance(st.get("src", st.get("a")), int) else False
             res, extra = H.run_step(w, st)
             if res == "ok":
